@@ -26,7 +26,8 @@ func (eng) Rule() string {
 		"the health states Healthcheck/Heartbeat, a recording handler binding over all handler names, histories of 12-25 mutations " +
 		"incl. health-check and no-op mutations; the history is first run without vetoes, then with every single veto on an " +
 		"Auto state's Enter/self/state-state handler that fired, then with every assignment (<=4 Auto states) or sampled " +
-		"assignments of vetoes, plus vetoes of non-auto handlers (Exit, AnyEnter). The tracer sequence is judged: next-is-auto " +
+		"assignments of vetoes, plus vetoes of non-auto handlers (Exit, AnyEnter); the unvetoed and the single-veto runs are repeated with " +
+		"the AnyState handler of every non-auto transition queueing an arg-less Add of exactly the auto mutation's candidate set. The tracer sequence is judged: next-is-auto " +
 		"with exactly the expected called set, no auto after auto/unchanged/health, per-state outcome with excuses. " +
 		"Evaluation = one transition judged; distinct non-trivial = distinct (schema, veto table, history prefix) whose " +
 		"transition was an auto mutation or triggered one."
@@ -34,7 +35,7 @@ func (eng) Rule() string {
 func (eng) Assumptions() []string {
 	return []string{"which of two mutually Removing Auto states wins is left open",
 		"a veto by a handler of a state that is not a called Auto state cancels by the normal rule",
-		"no handler faults; handlers do not issue mutations"}
+		"no handler faults; handlers issue mutations only in the look-alike runs (AnyState queues an Add of the Auto candidates)"}
 }
 
 func (eng) Cases(seed uint64, tier string) []core.CaseDesc {
@@ -124,15 +125,48 @@ func isHealthOp(op gen.Op) bool {
 }
 
 func run(res *core.CaseResult, spec gen.SchemaSpec, v veto, hist []gen.Op) *seq.Mach {
+	return runInj(res, spec, v, hist, false)
+}
+
+// runInj: with inject, the last handler of every accepted non-auto transition
+// (AnyState) queues an arg-less Add of exactly the states the auto mutation
+// is about to call - a user mutation that looks like the auto one and must
+// neither replace nor suppress it.
+func runInj(res *core.CaseResult, spec gen.SchemaSpec, v veto, hist []gen.Op, inject bool) *seq.Mach {
 	mc, _ := seq.New(spec, seq.MachOpts{})
 	m := mc.M
 	names := rec.AllHandlerNames(gen.Sorted(spec.Names))
+	stNames := m.StateNames()
+	schema := m.Schema()
+	injected := 0
 	_, _ = rec.BindMaps(m, mc.HLog, 0, names, func(c *rec.HCall, e *am.Event) bool {
+		if inject && c.Name == "AnyState" && injected < 40 {
+			if tx := e.Transition(); tx != nil && !tx.IsAuto() && !tx.IsHealth() {
+				var cands am.S
+				for _, s := range stNames {
+					if !schema[s].Auto || rec.Has(c.Active, s) {
+						continue
+					}
+					blocked := false
+					for _, a := range c.Active {
+						if slices.Contains(schema[a].Remove, s) {
+							blocked = true
+						}
+					}
+					if !blocked {
+						cands = append(cands, s)
+					}
+				}
+				if len(cands) > 0 {
+					injected++
+					res.Count("lookalike_adds_queued_from_handlers", 1)
+					e.Machine().Add(cands, nil)
+				}
+			}
+		}
 		return !v[c.Name]
 	})
 	defer m.Dispose()
-	stNames := m.StateNames()
-	schema := m.Schema()
 	for _, op := range hist {
 		rec.Apply(m, op)
 	}
@@ -147,7 +181,7 @@ func run(res *core.CaseResult, spec gen.SchemaSpec, v veto, hist []gen.Op) *seq.
 		if hi > len(txs) {
 			hi = len(txs)
 		}
-		return map[string]any{"schema": spec.String(), "veto": vlist(v), "history": fmt.Sprint(hist), "txs": txs[lo:hi]}
+		return map[string]any{"schema": spec.String(), "veto": vlist(v), "history": fmt.Sprint(hist), "lookalike_adds_from_anystate": inject, "txs": txs[lo:hi]}
 	}
 	for i, tx := range txs {
 		res.Evals++
@@ -183,7 +217,7 @@ func run(res *core.CaseResult, spec gen.SchemaSpec, v veto, hist []gen.Op) *seq.
 					res.Violate("C07/auto-called-set", fmt.Sprintf(
 						"auto mutation called %v, expected exactly the inactive unblocked Auto states %v", next.Called, want), ctx(i))
 				}
-				res.Key(spec.String(), fmt.Sprint(vlist(v)), fmt.Sprint(hist), i)
+				res.Key(spec.String(), fmt.Sprint(vlist(v)), fmt.Sprint(hist), i, inject)
 			} else if next != nil && next.IsAuto {
 				res.Violate("C07/auto-without-candidates", "an auto mutation ran although no Auto state was eligible", ctx(i))
 			}
@@ -369,6 +403,11 @@ func (eng) Run(c core.CaseDesc, tier string) *core.CaseResult {
 	for _, p := range ap {
 		run(res, spec, veto{p: true}, hist)
 		res.Count("single_auto_veto_runs", 1)
+	}
+	// the same with look-alike user mutations queued from handlers
+	runInj(res, spec, veto{}, hist, true)
+	for _, p := range ap {
+		runInj(res, spec, veto{p: true}, hist, true)
 	}
 	if len(ap) <= 4 {
 		for mask := 1; mask < 1<<len(ap); mask++ {
